@@ -148,14 +148,17 @@ CLAIMED.update({
          "and any further keys: parse() returns or raises ProtocolError / InvalidUriError, never anything else (no "
          "constructor assertion is reachable, no IndexError / KeyError / TypeError), and a returned message has ids in "
          "0..2^53, URIs of the grammar, options of the declared types, white / black lists and forward_for chains valid "
-         "element by element (loop invariants, unbounded), every field equal to the input's. Hello / Welcome: a bounded "
+         "element by element (loop invariants, unbounded), every field equal to the input's. Serializer.unserialize: whatever list the codec returns (or "
+         "whatever Exception it raises), only ProtocolError / InvalidUriError leave; the precondition of the per-class parse() "
+         "(non-empty list headed by the int the class is registered under -- the 25-entry table is checked exhaustively) "
+         "is an obligation at the call site; a binary-flag mismatch is rejected. Hello / Welcome: a bounded "
          "enumeration on the real code stands in (labelled bounded). Counterexamples are rebuilt as Python structures and "
          "handed to the real parse(); for an accepted message the failed clause is evaluated natively on the real objects.",
     note="Trusted: z3 (strings, regular expressions, quantifier instantiation for the list invariants), pyvc, CPython's "
          "re._parser as the definition of the pattern language (characters above U+2FFFF outside z3's range); a "
          "deserialized value is int / bool / str / None / float / bytes / list / dict. Not covered (level 'other'): "
-         "Serializer.unserialize (envelope, dispatch, exception wrapping), arbitrary octets through the third-party "
-         "codecs, Hello / Welcome beyond the stated bound, role.py.",
+         "arbitrary octets through the third-party codecs (assumed: a codec returns a list or raises an Exception), "
+         "Hello / Welcome beyond the stated bound, role.py, the statistics auto-reset callback, flatbuffers.",
     technique="contract-based deductive verification: AST->VC with untrusted list/dict value types, loop invariants, Python regex -> z3 regex via CPython's parse tree, z3; bounded enumeration for two classes"),
 })
 
